@@ -63,7 +63,7 @@ theorem coup_pop {max : Nat} {s : St} {o : Ob} {m : MS} {x : List CFrame} {t : T
     fun l => pendW_of_not_special o l (fun t' r e => by rw [hst] at e; cases e; exact hsp0)
   have hcur : o.cur = none := cur_of_not_special h.win (fun t' r e => by rw [hst] at e; cases e; exact hsp0)
   refine ⟨hmax.trans h.max, ?_, ?_, hstk, ?_, ?_, ?_, Or.inl hlast, h.subF, h.subM, ?_, h.inb, ?_, h.heldOk, ?_, ?_,
-    h.rdr1, ?_, h.rdr3, h.rdr4, h.rdCan⟩
+    h.rdr1, ?_, h.rdr3, h.rdr4, h.rdr5, h.rdCan⟩
   · intro c hc
     obtain ⟨c0, hc0, e1, e2, e3⟩ := hled1 c hc
     rw [e1, e2, e3]
@@ -204,7 +204,7 @@ theorem sim_peer {s : St} {o : Ob} {m : MS} {g : CFrame} (h : Coup max s o m [])
     ∃ m', mrun m [.peer g] = .ok m' ∧ Coup max s { o with net := o.net ++ [g] } m' [] := by
   refine ⟨{ m with inq := m.inq ++ [g] }, mrun_single rfl, ?_⟩
   refine ⟨h.max, h.ledMem, h.ledAll, h.stk, h.spec, h.errs, h.hl, h.last, h.subF, h.subM, h.exp, h.inb, ?_, h.heldOk, h.win,
-    h.chain, h.rdr1, h.rdr2, h.rdr3, h.rdr4, h.rdCan⟩
+    h.chain, h.rdr1, h.rdr2, h.rdr3, h.rdr4, h.rdr5, h.rdCan⟩
   intro hsy hws
   obtain ⟨h1, h2⟩ := h.rdq hsy hws
   refine ⟨?_, h2⟩
@@ -225,7 +225,7 @@ theorem sim_drain {s : St} {o : Ob} {m : MS} {k : Nat} (h : Coup max s o m []) (
     · show Sonic.Spec.WsAsync.step m (.wire _) = _
       simp [Sonic.Spec.WsAsync.step, hh]
     · refine ⟨h.max, h.ledMem, h.ledAll, h.stk, h.spec, h.errs, h.hl, h.last, h.subF, h.subM, ?_, h.inb, h.rdq, h.heldOk,
-        h.win, h.chain, h.rdr1, h.rdr2, h.rdr3, h.rdr4, h.rdCan⟩
+        h.win, h.chain, h.rdr1, h.rdr2, h.rdr3, h.rdr4, h.rdr5, h.rdCan⟩
       intro h1; rw [hh] at h1; cases h1
   | true =>
     have he := h.exp hh
@@ -249,7 +249,7 @@ theorem sim_drain {s : St} {o : Ob} {m : MS} {k : Nat} (h : Coup max s o m []) (
       rw [hw, hsplit, hmw]
       rfl
     · refine ⟨h.max, h.ledMem, h.ledAll, h.stk, h.spec, h.errs, h.hl, h.last, h.subF, h.subM, ?_, h.inb, h.rdq, h.heldOk,
-        h.win, h.chain, h.rdr1, h.rdr2, h.rdr3, h.rdr4, h.rdCan⟩
+        h.win, h.chain, h.rdr1, h.rdr2, h.rdr3, h.rdr4, h.rdr5, h.rdCan⟩
       intro _
       show _ ++ pendW s _ m.last = _
       rw [show pendW s { o with reported := o.reported + k } m.last = [] from by simp [pendW, hst], List.append_nil]
@@ -298,7 +298,7 @@ theorem coup_same {s s1 : St} {o : Ob} {m : MS} {x : List CFrame} (hb : Bool) (h
     (hlocs : ∀ p ∈ locs s1, p ∈ locs s) (hhl : hb = true → m.healthy = true ∧ s1.healthy = true)
     (herr : m.healthy = false → hb = false) : Coup max s1 o { m with healthy := hb } x := by
   have hpw : ∀ l, pendW s1 o l = pendW s o l := fun l => by simp only [pendW, e8, e1]
-  refine ⟨h.max, ?_, ?_, ?_, ?_, ?_, ?_, ?_, ?_, h.subM, ?_, ?_, ?_, h.heldOk, ?_, ?_, ?_, ?_, h.rdr3, h.rdr4, ?_⟩
+  refine ⟨h.max, ?_, ?_, ?_, ?_, ?_, ?_, ?_, ?_, h.subM, ?_, ?_, ?_, h.heldOk, ?_, ?_, ?_, ?_, h.rdr3, h.rdr4, ?_, ?_⟩
   · rw [e3, e4]; exact h.ledMem
   · rw [e3]; exact h.ledAll
   · rw [e8]; exact h.stk
@@ -317,6 +317,7 @@ theorem coup_same {s s1 : St} {o : Ob} {m : MS} {x : List CFrame} (hb : Bool) (h
   · intro p hp; exact h.chain p (hlocs p hp)
   · rw [e5]; exact h.rdr1
   · intro p hp; exact h.rdr2 p (hlocs p hp)
+  · rw [e3]; exact h.rdr5
   · intro hr; rw [e1]; exact e7 hr
 
 theorem all_not_special {s : St} {o : Ob} {m : MS} {x : List CFrame} (h : Coup max s o m x) {t : Task} {rest : List Task}
@@ -420,7 +421,7 @@ theorem coup_rinvoke {s s' : St} {o : Ob} {m : MS} (hb : Bool) (c' : Option CFra
   have hkc := h.chain _ hloc
   obtain ⟨b, hrdr, hb1, hb2⟩ := h.rdr2 _ hloc (by rcases hlk with rfl | rfl <;> rfl)
   have hk3 := h.rdr3 cb b hrdr
-  refine ⟨h.max, ?_, ?_, ?_, ?_, ?_, ?_, ?_, ?_, h.subM, ?_, ?_, ?_, h.heldOk, ?_, ?_, ?_, ?_, h.rdr3, h.rdr4, ?_⟩
+  refine ⟨h.max, ?_, ?_, ?_, ?_, ?_, ?_, ?_, ?_, h.subM, ?_, ?_, ?_, h.heldOk, ?_, ?_, ?_, ?_, h.rdr3, h.rdr4, ?_, ?_⟩
   · rw [e3, e4]; exact h.ledMem
   · rw [e3]; exact h.ledAll
   · rw [hstack', List.filterMap_cons]; exact hstk
@@ -476,6 +477,7 @@ theorem coup_rinvoke {s s' : St} {o : Ob} {m : MS} (hb : Bool) (c' : Option CFra
     rcases hlocs p hp with rfl | h1
     · exact ⟨b, hrdr, (fun e => by cases e), (fun e => by cases e)⟩
     · exact h.rdr2 p h1 hrp
+  · rw [e3]; exact h.rdr5
   · intro hr'; rw [hrd] at hr'; cases hr'
 
 theorem lk_cases (rk : RKind) : rk.lk = .f ∨ rk.lk = .m := by cases rk <;> simp [RKind.lk]
@@ -786,7 +788,7 @@ theorem sim_enter {s s' : St} {o : Ob} {m : MS} {cb : CbId} {r : Res} (hI : Inv 
         have hns' := enter_stack_ns (cb := cb) (prog cb) hrestns
         refine ⟨h.max, hl1, hl2, ?_, fun t ht => hns' t (List.mem_of_mem_tail ht), ?_, ?_, Or.inl rfl, h.subF, h.subM, ?_, h.inb,
           h.rdq, h.heldOk, window_of_not_special (head_of_ns hns') hcur, fun p hp => h.chain p (enter_locs _ _ _ hst hp),
-          h.rdr1, fun p hp => h.rdr2 p (enter_locs _ _ _ hst hp), h.rdr3, h.rdr4, h.rdCan⟩
+          h.rdr1, fun p hp => h.rdr2 p (enter_locs _ _ _ hst hp), h.rdr3, h.rdr4, h.rdr5, h.rdCan⟩
         · show (Sonic.Spec.WsAsync.Frame.handler cb :: m.stack).map shapeF = _
           rw [enter_stack_shape, List.map_cons, hstk]; rfl
         · intro cb1 hc1
@@ -831,7 +833,7 @@ theorem sim_enter {s s' : St} {o : Ob} {m : MS} {cb : CbId} {r : Res} (hI : Inv 
         have hns' := enter_stack_ns (cb := cb) (prog cb) hrestns
         refine ⟨e1.trans h.max, hl1, hl2, ?_, fun t ht => hns' t (List.mem_of_mem_tail ht), ?_, ?_, Or.inl rfl, h.subF, h.subM, ?_,
           h.inb, ?_, (fun g hg => by cases hg), window_of_not_special (head_of_ns hns') rfl,
-          fun p hp => h.chain p (enter_locs _ _ _ hst hp), rfl, ?_, (fun cb b e => by cases e), fun _ => ⟨rfl, rfl⟩, h.rdCan⟩
+          fun p hp => h.chain p (enter_locs _ _ _ hst hp), rfl, ?_, (fun cb b e => by cases e), (fun _ => ⟨rfl, rfl⟩), (fun cb b e => by cases e), h.rdCan⟩
         · show (Sonic.Spec.WsAsync.Frame.handler cb :: s1.stack).map shapeF = _
           rw [enter_stack_shape, List.map_cons, e3, hstk]; rfl
         · intro cb1 hc1
@@ -875,5 +877,210 @@ theorem sim_enter {s s' : St} {o : Ob} {m : MS} {cb : CbId} {r : Res} (hI : Inv 
           exact absurd hreads (Nat.ne_of_gt this)
     · cases hs
   · cases hs
+
+/-! ### The control callback -/
+
+theorem sim_ctl {s s' : St} {o : Ob} {m : MS} (h : Coup max s o m []) (hs : step true prog s .ctl = some s') :
+    ∃ m', mrun m [.ctl (o.cur.getD default).op (o.cur.getD default).payload (stOf s'.ws)] = .ok m' ∧
+      Coup max s' { o with macc := o.macc ++ payloads o.held, held := [], cur := none } m' [] := by
+  simp only [step] at hs
+  split at hs
+  · rename_i rest hst
+    cases hs
+    have hw := h.win
+    unfold Window at hw
+    rw [hst] at hw
+    obtain ⟨g, hg, hctl, hne⟩ := hw
+    have hgd : o.cur.getD default = g := by rw [hg]; rfl
+    rw [hgd]
+    have hstk := h.stk
+    rw [hst, List.filterMap_cons] at hstk
+    have hns := head_not_special hst h.spec
+    -- the delivery check
+    have hdel : ∃ s1, Sonic.Spec.WsAsync.deliverCtl m g.op g.payload = .ok s1 ∧ s1.max = m.max ∧ s1.cbs = m.cbs ∧
+        s1.stack = m.stack ∧ s1.expect = m.expect ∧ s1.last = m.last ∧ s1.healthy = m.healthy ∧ s1.synced = m.synced ∧
+        (m.synced = true → s1.inq = o.inboxC ++ o.net ∧ s1.macc = o.macc ++ payloads o.held) := by
+      unfold Sonic.Spec.WsAsync.deliverCtl
+      cases hsy : m.synced with
+      | false => exact ⟨m, rfl, rfl, rfl, rfl, rfl, rfl, rfl, hsy, fun h1 => by cases h1⟩
+      | true =>
+        simp only [Bool.not_true, Bool.false_eq_true, if_false]
+        obtain ⟨hinq, hma⟩ := h.rdq hsy hne
+        rw [hg] at hinq
+        simp only [Option.toList_some, List.nil_append, List.append_assoc, List.cons_append, List.append_nil] at hinq
+        have htd := Sonic.Spec.WsAsync.takeData_frags (g :: (o.inboxC ++ o.net)) o.held m.macc (m.inq.length + 1) h.heldOk
+          (by rw [hinq]; simp; omega)
+        rw [← hinq] at htd
+        have hpos : m.inq.length + 1 - o.held.length = (m.inq.length - o.held.length) + 1 := by
+          rw [hinq]; simp; omega
+        rw [hpos] at htd
+        simp only [Sonic.Spec.WsAsync.takeData, hctl, if_true] at htd
+        rw [htd]
+        simp only [hctl, beq_self_eq_true, Bool.and_self, if_true]
+        exact ⟨_, rfl, rfl, rfl, rfl, rfl, rfl, rfl, rfl, fun _ => ⟨rfl, by rw [hma]; rfl⟩⟩
+    obtain ⟨s1, hd, e1, e2, e3, e4, e5, e6, e7, hq⟩ := hdel
+    refine ⟨{ (addW s1 (replyFor s1.last { fin := true, rsv := 0, op := g.op, masked := false, payload := g.payload }).toList)
+              with last := stOf s.ws }, mrun_single ?_, ?_⟩
+    · show Sonic.Spec.WsAsync.step m (.ctl g.op g.payload (stOf s.ws)) = _
+      simp only [Sonic.Spec.WsAsync.step, hd, bind, Except.bind, pure, Except.pure, Sonic.Spec.WsAsync.pushReply_eq]
+    · have hpw : pendW s o m.last = (replyFor m.last { fin := true, rsv := 0, op := g.op, masked := false, payload := g.payload }).toList := by
+        simp only [pendW, hst, hgd]
+      refine ⟨e1.trans h.max, ?_, ?_, ?_, ?_, ?_, ?_, Or.inl rfl, h.subF, h.subM, ?_, h.inb, ?_, (fun g' hg' => by cases hg'),
+        window_of_not_special hns rfl, fun p hp => h.chain p (locs_pop hst hp), h.rdr1, fun p hp => h.rdr2 p (locs_pop hst hp),
+        h.rdr3, ?_, h.rdr5, h.rdCan⟩
+      · show ∀ c ∈ s1.cbs, _
+        rw [e2]; exact h.ledMem
+      · show ∀ cb ∈ s.started, ∃ c ∈ s1.cbs, _
+        rw [e2]; exact h.ledAll
+      · show s1.stack.map shapeF = _
+        rw [e3]; exact hstk
+      · intro t ht; apply h.spec; rw [hst, List.tail_cons]; exact List.mem_of_mem_tail ht
+      · intro cb hc
+        show s1.healthy = false
+        rw [e6]; exact h.errs cb (by rw [hst]; exact List.mem_cons_of_mem _ hc)
+      · intro hh; exact h.hl (e6 ▸ hh)
+      · intro hh
+        have he := h.exp (e6 ▸ hh)
+        show (s1.expect ++ _) ++ pendW _ _ _ = _
+        rw [pendW_of_not_special (s := _) _ _ hns, List.append_nil, e4, e5, ← hpw]
+        exact he
+      · intro hsy _
+        have hsy' : m.synced = true := e7 ▸ hsy
+        obtain ⟨g1, g2⟩ := hq hsy'
+        refine ⟨?_, g2⟩
+        show s1.inq = [] ++ [] ++ [] ++ o.inboxC ++ o.net
+        rw [g1]; simp
+      · intro hr
+        obtain ⟨g1, g2⟩ := h.rdr4 hr
+        exact ⟨rfl, by show o.macc ++ payloads o.held = []; rw [g1, g2]; rfl⟩
+  · cases hs
+
+/-! ### A call is made -/
+
+theorem locs_started {s : St} (hI : Inv s) : ∀ p ∈ locs s, p.1 ∈ s.started := by
+  intro p hp
+  have hmem := List.mem_map_of_mem (f := eraseK) hp
+  rw [← owed_eq_locs] at hmem
+  have h1 := hI.cbs p.1
+  have : 0 < (owedList s).countP (·.1 == p.1) := List.countP_pos_iff.2 ⟨eraseK p, hmem, by simp [eraseK]⟩
+  exact List.count_pos_iff.1 (by omega)
+
+theorem log_started {s : St} (hI : Inv s) : ∀ c ∈ s.log, c ∈ s.started := by
+  intro c hc
+  have h1 := hI.cbs c
+  have : 0 < s.log.count c := List.count_pos_iff.2 hc
+  exact List.count_pos_iff.1 (by omega)
+
+theorem kindOf_cons_self (o : Ob) (cb : CbId) (k : Kind) (rd : Option (CbId × Bool)) :
+    kindOf { o with kinds := (cb, k) :: o.kinds, reader := rd } cb = k := by
+  simp [kindOf, List.lookup]
+
+theorem kindOf_cons_ne (o : Ob) {cb cb' : CbId} (k : Kind) (rd : Option (CbId × Bool)) (hne : cb' ≠ cb) :
+    kindOf { o with kinds := (cb, k) :: o.kinds, reader := rd } cb' = kindOf o cb' := by
+  have : (cb' == cb) = false := by simpa using hne
+  simp [kindOf, List.lookup, this]
+
+/-- the monitor after `start m cb k` -/
+def started (m : MS) (cb : CbId) (k : Kind) : MS :=
+  { (setCb m { id := cb, kind := k }) with stack := .call (some cb) :: m.stack }
+
+/-- Registering a call: the callback id is fresh, the call's frame is on both stacks. -/
+theorem coup_start {s0 : St} {o : Ob} {m : MS} {cb : CbId} (k : Kind) (hI : Inv s0) (h : Coup max s0 o m [])
+    (hns : ∀ t ∈ s0.stack, special t = false) (hlast : m.last = stOf s0.ws) (hfresh : cb ∉ s0.started)
+    (hrb : k.isRead = true → s0.readBusy = false) :
+    Sonic.Spec.WsAsync.start m cb k = .ok (started m cb k) ∧
+    Coup max { s0 with stack := .ret :: s0.stack, started := s0.started ++ [cb],
+                       readBusy := if k.isRead then true else s0.readBusy }
+      { o with kinds := (cb, k) :: o.kinds, reader := if k.isRead then some (cb, k == .readMsg) else o.reader }
+      (started m cb k) [] := by
+  have hnone : findCb m cb = none := by
+    unfold findCb
+    rw [List.find?_eq_none]
+    intro c hc hid
+    exact hfresh ((by simpa using hid : c.id = cb) ▸ (h.ledMem c hc).1)
+  have hcur : o.cur = none := cur_of_not_special h.win (head_of_ns hns)
+  have hp0 : pendW s0 o m.last = [] := pendW_of_not_special o _ (head_of_ns hns)
+  refine ⟨by simp [Sonic.Spec.WsAsync.start, hnone, started], ?_⟩
+  refine ⟨h.max, ?_, ?_, ?_, hns, ?_, h.hl, Or.inl hlast, h.subF, h.subM, ?_, h.inb, h.rdq, h.heldOk, hcur, ?_, ?_, ?_, ?_, ?_,
+    ?_, h.rdCan⟩
+  · intro c hc
+    rcases Sonic.Spec.WsAsync.mem_setCb.1 hc with rfl | ⟨h1, h2⟩
+    · refine ⟨List.mem_append_right _ (List.mem_singleton.2 rfl), ?_, (kindOf_cons_self o cb k _).symm⟩
+      show false = decide (cb ∈ s0.log)
+      have : cb ∉ s0.log := fun hl => hfresh (log_started hI cb hl)
+      simp [this]
+    · obtain ⟨g1, g2, g3⟩ := h.ledMem c h1
+      exact ⟨List.mem_append_left _ g1, g2, by rw [kindOf_cons_ne o k _ h2]; exact g3⟩
+  · intro cb0 hcb0
+    rcases List.mem_append.1 hcb0 with h1 | h1
+    · obtain ⟨c1, hc1, e1⟩ := h.ledAll cb0 h1
+      by_cases e : c1.id = cb
+      · exact ⟨_, Sonic.Spec.WsAsync.mem_setCb.2 (Or.inl rfl), by rw [← e1, e]⟩
+      · exact ⟨c1, Sonic.Spec.WsAsync.mem_setCb.2 (Or.inr ⟨hc1, e⟩), e1⟩
+    · rw [List.mem_singleton.1 h1]
+      exact ⟨_, Sonic.Spec.WsAsync.mem_setCb.2 (Or.inl rfl), rfl⟩
+  · show (Sonic.Spec.WsAsync.Frame.call (some cb) :: m.stack).map shapeF = (Task.ret :: s0.stack).filterMap shapeT
+    rw [List.map_cons, List.filterMap_cons, h.stk]; rfl
+  · intro cb1 hc1
+    rcases List.mem_cons.1 hc1 with e | h1
+    · cases e
+    · exact h.errs cb1 h1
+  · intro hh
+    have := h.exp hh
+    rw [hp0] at this
+    show m.expect ++ pendW _ _ m.last = _
+    rw [show pendW _ _ m.last = [] from by simp [pendW]]
+    exact this
+  · intro p hp
+    have hp' : p ∈ locs s0 := by
+      simp only [locs, wrK, rdK, List.flatMap_cons, taskK, List.nil_append] at hp ⊢; exact hp
+    have hne : p.1 ≠ cb := fun e => hfresh (e ▸ locs_started hI p hp')
+    rw [kindOf_cons_ne o k _ hne]
+    exact h.chain p hp'
+  · show (if k.isRead then true else s0.readBusy) = Option.isSome (if k.isRead then some (cb, k == .readMsg) else o.reader)
+    cases hk : k.isRead with
+    | true => rfl
+    | false => exact h.rdr1
+  · intro p hp hr
+    have hp' : p ∈ locs s0 := by
+      simp only [locs, wrK, rdK, List.flatMap_cons, taskK, List.nil_append] at hp ⊢; exact hp
+    obtain ⟨b, hb, g1, g2⟩ := h.rdr2 p hp' hr
+    cases hk : k.isRead with
+    | true =>
+      have := h.rdr1
+      rw [hrb hk, hb] at this
+      cases this
+    | false => exact ⟨b, by simp only [Bool.false_eq_true, if_false]; exact hb, g1, g2⟩
+  · intro cb1 b hb
+    cases hk : k.isRead with
+    | true =>
+      simp only [hk, if_true, Option.some.injEq, Prod.mk.injEq] at hb
+      obtain ⟨rfl, rfl⟩ := hb
+      rw [kindOf_cons_self]
+      cases k <;> simp_all [Kind.isRead]
+    | false =>
+      simp only [hk, Bool.false_eq_true, if_false] at hb
+      have hk3 := h.rdr3 cb1 b hb
+      have hne : cb1 ≠ cb := fun e => hfresh (e ▸ h.rdr5 cb1 b hb)
+      rw [kindOf_cons_ne o k _ hne]
+      exact hk3
+  · intro hr
+    apply h.rdr4
+    intro cb1 e
+    cases hk : k.isRead with
+    | true =>
+      have := h.rdr1
+      rw [hrb hk, e] at this
+      cases this
+    | false => exact hr cb1 (by simp only [hk, Bool.false_eq_true, if_false]; exact e)
+  · intro cb1 b hb
+    cases hk : k.isRead with
+    | true =>
+      simp only [hk, if_true, Option.some.injEq, Prod.mk.injEq] at hb
+      rw [← hb.1]
+      exact List.mem_append_right _ (List.mem_singleton.2 rfl)
+    | false =>
+      simp only [hk, Bool.false_eq_true, if_false] at hb
+      exact List.mem_append_left _ (h.rdr5 cb1 b hb)
 
 end Sonic.Model.WsAsyncObs
